@@ -114,7 +114,11 @@ impl LspProject {
                 Ok(_) => vec![],
                 Err(diagnostics) => diagnostics
                     .into_iter()
-                    .filter(|d| d.file_ids().contains(&file_id))
+                    // A diagnostic is published for the document that holds its
+                    // primary label: that is where its range points. (A diagnostic
+                    // that only mentions this document in a secondary label belongs
+                    // to the other document.)
+                    .filter(|d| d.primary.file_id == file_id)
                     .map(|d| map_diagnostic(d, self.wrapped.as_ref()))
                     .collect(),
             };
